@@ -292,6 +292,8 @@ class HttpParser(abc.ABC, Generic[_MsgT]):
         self._payload_has_more_data = False
         # set once a message announced that the connection closes after it
         self._should_close = False
+        # set once a body could not be decoded: the position in the stream is lost
+        self._undecodable = False
         self._auto_decompress = auto_decompress
         self._limit = limit
         self._headers_parser = HeadersParser(max_field_size, self.lax)
@@ -345,6 +347,11 @@ class HttpParser(abc.ABC, Generic[_MsgT]):
         SEC_WEBSOCKET_KEY1: istr = hdrs.SEC_WEBSOCKET_KEY1,
     ) -> tuple[list[tuple[_MsgT, StreamReader]], bool, bytes]:
         messages = []
+
+        if self._undecodable:
+            # The rest of an undecodable body cannot be told from what follows
+            # it: it is dropped whichever read delivers it.
+            return messages, self._upgraded, b""
 
         if self._tail:
             data, self._tail = self._tail + data, b""
@@ -577,6 +584,7 @@ class HttpParser(abc.ABC, Generic[_MsgT]):
                         # limit exceeded): the position in the stream is lost,
                         # nothing further can be parsed from this connection.
                         raise
+                    self._undecodable = True
 
                 self._payload_has_more_data = (
                     payload_state == PayloadState.PAYLOAD_HAS_PENDING_INPUT
